@@ -592,10 +592,16 @@ func raceMetrics(ctx context.Context, wg *sync.WaitGroup) {
 	}
 }
 
-func raceThirdParty(ctx context.Context, wg *sync.WaitGroup, files []string, rng *Rng) {
+// raceThirdParty: another program changing pwm values / temperatures under fan2go's feet.  Replaces the file
+// atomically (rename) so that a concurrent reader never sees an empty file: read errors would end the control
+// loops early and are the business of C09, not of this stress run.
+func raceThirdParty(ctx context.Context, wg *sync.WaitGroup, files []string, lo, hi []int, rng *Rng) {
 	defer wg.Done()
 	for ctx.Err() == nil {
-		raceWrite(files[rng.Intn(len(files))], rng.Intn(256))
+		i := rng.Intn(len(files))
+		tmp := files[i] + ".third"
+		raceWrite(tmp, rng.Range(lo[i], hi[i]))
+		_ = os.Rename(tmp, files[i])
 		time.Sleep(3 * time.Millisecond)
 	}
 }
@@ -741,7 +747,8 @@ func raceChild(ctx *Ctx) {
 		go raceFanRun(rctx, &wg, c)
 	}
 	wg.Add(1)
-	go raceThirdParty(rctx, &wg, []string{p("f_hw1_pwm"), p("f_hw2_pwm"), p("ffile_pwm"), p("temp1"), p("temp2")}, NewRng(ctx.Seed, "third"))
+	go raceThirdParty(rctx, &wg, []string{p("f_hw1_pwm"), p("f_hw2_pwm"), p("ffile_pwm"), p("temp1"), p("temp2")},
+		[]int{0, 0, 0, 30000, 30000}, []int{255, 255, 255, 80000, 80000}, NewRng(ctx.Seed, "third"))
 
 	time.Sleep(time.Duration(ms) * time.Millisecond)
 	cancel()
